@@ -7,7 +7,7 @@ import vf
 
 KF_BUILTIN = "builtin-collector-name-collision"
 BUILTIN = [b"statsd_exporter_lines_total", b"statsd_exporter_loaded_mappings", b"go_goroutines"]
-NAMES = [b"x", b"x_sum", b"x_count", b"x_bucket", b"x_total", b"x.sum", b"x-sum"]
+NAMES = [b"x", b"x_sum", b"x_count", b"x_bucket", b"x_total", b"x.sum", b"x-sum", b"x\xef\xbf\xbdy"]
 TYPES = [b"c", b"g", b"ms", b"h"]
 
 
@@ -34,7 +34,7 @@ def gen_case(rnd):
             nm = rnd.choice([b"y", b"a.b", b"z_sum", b"#k=v", b",k=v", b"[k=v]"])
         l = nm + b":" + rnd.choice([b"1", b"2", b"0.5"]) + b"|" + rnd.choice(TYPES)
         if rnd.random() < 0.35:
-            l += b"|#" + rnd.choice([b"k:v", b"k:w", b"j:v", b"__name__:q", b"le:1", b"quantile:0.5", b"-_x:1", b"a.b:1,a-b:2", b"k:caf\xc3\xa9"])
+            l += b"|#" + rnd.choice([b"k:v", b"k:w", b"j:v", b"__name__:q", b"le:1", b"quantile:0.5", b"-_x:1", b"a.b:1,a-b:2", b"k:caf\xc3\xa9", b"h\xef\xbf\xbdst:1", b"\xef\xbf\xbd:1"])
         ops.append(PE.I(l))
         ops.append("G")
         if rnd.random() < 0.15:
